@@ -255,7 +255,7 @@ def build_suite_tasks(
     ###
     # Build suite ending task
     ###
-    suite_ending_dependencies = []
+    suite_ending_dependencies = [suite_beginning_task]
     suite_ending_dependencies.extend(test_tasks)
     if suite_teardown_task:
         suite_ending_dependencies.append(suite_teardown_task)
